@@ -437,8 +437,26 @@ impl Prop for C18 {
             // affinity scenario
             let v6 = r.chance(1, 3);
             // address pools include values that look like ethertypes when they sit at bytes 12..13 of a raw packet
-            let c = if v6 { Endpoint::v6(1 + r.below(200) as u16, 1024 + r.below(60000) as u16) } else if r.chance(1, 12) { Endpoint::v4(*r.pick(&[8u8, 134]), *r.pick(&[0u8, 221]), r.u8(), 1 + r.below(250) as u8, 1024 + r.below(60000) as u16) } else { Endpoint::v4(*r.pick(&[10u8, 192, 172, 100]), r.u8(), r.u8(), 1 + r.below(250) as u8, 1024 + r.below(60000) as u16) };
-            let s = if v6 { Endpoint::v6(0x500 + r.below(20) as u16, *r.pick(&[80u16, 443, 8080])) } else { Endpoint::v4(*r.pick(&[10u8, 203, 198]), r.u8(), r.u8(), 1 + r.below(250) as u8, *r.pick(&[80u16, 443, 8080])) };
+            // one scenario in six: addresses whose leading bytes sit, in a raw-IP packet, where an Ethernet frame has its
+            // EtherType (offset 12: source address) and where a VLAN-tagged frame has its inner EtherType (offset 16:
+            // destination address), and look like one: 08 00, 86 dd, or a tag protocol id
+            let framing_lookalike = !v6 && r.chance(1, 6);
+            let c = if v6 {
+                Endpoint::v6(1 + r.below(200) as u16, 1024 + r.below(60000) as u16)
+            } else if framing_lookalike {
+                let (a, b) = *r.pick(&[(0x08u8, 0x00u8), (0x86, 0xdd), (0x81, 0x00), (0x81, 0x00), (0x88, 0xa8), (0x91, 0x00)]);
+                Endpoint::v4(a, b, r.u8(), 1 + r.below(250) as u8, 1024 + r.below(60000) as u16)
+            } else {
+                Endpoint::v4(*r.pick(&[10u8, 192, 172, 100]), r.u8(), r.u8(), 1 + r.below(250) as u8, 1024 + r.below(60000) as u16)
+            };
+            let s = if v6 {
+                Endpoint::v6(0x500 + r.below(20) as u16, *r.pick(&[80u16, 443, 8080]))
+            } else if framing_lookalike && r.chance(2, 3) {
+                let (a, b) = *r.pick(&[(0x08u8, 0x00u8), (0x86, 0xdd)]);
+                Endpoint::v4(a, b, r.u8(), 1 + r.below(250) as u8, *r.pick(&[80u16, 443, 8080]))
+            } else {
+                Endpoint::v4(*r.pick(&[10u8, 203, 198]), r.u8(), r.u8(), 1 + r.below(250) as u8, *r.pick(&[80u16, 443, 8080]))
+            };
             // one connection in five has both ends on the same address (loopback capture, hairpin NAT)
             let s = if r.chance(1, 5) { Endpoint { ip: c.ip, port: s.port } } else { s };
             let h = tcp::Host::random(r);
@@ -518,15 +536,21 @@ impl Prop for C18 {
                 // predicate for known-finding matching: a raw-IP framed IPv4 packet whose source address starts
                 // with 08 00 or 86 dd sits where an Ethernet frame has its EtherType, and every framing
                 // heuristic of the repository (parser, raw filter, dispatch hash) takes it for an Ethernet frame
-                let lookalike = match seg.src.ip {
+                // (the direction comparison hashes the reverse packet too, whose source is this segment's destination)
+                let looks = |ip: &std::net::IpAddr| match ip {
                     std::net::IpAddr::V4(a) => {
                         let o = a.octets();
                         (o[0] == 0x08 && o[1] == 0x00) || (o[0] == 0x86 && o[1] == 0xdd)
                     }
                     _ => false,
-                } && (*base_framing == Framing::RawIp || variants.iter().any(|v| v.2 == Framing::RawIp));
+                };
+                let raw = *base_framing == Framing::RawIp || variants.iter().any(|v| v.2 == Framing::RawIp);
+                let (src_like, dst_like) = (looks(&seg.src.ip) && raw, looks(&seg.dst.ip) && raw);
                 let r = affinity_inner(kind, seg, variants, base_framing, all_patch, byte_variants, st);
                 return r.map_err(|mut v| {
+                    // the packet that is hashed wrongly is the one whose SOURCE looks like an EtherType: the segment
+                    // itself under a rewrite, either packet in the comparison of the two directions
+                    let lookalike = src_like || (dst_like && v.key.contains("direction"));
                     if lookalike {
                         v.key = format!("raw-ip-source-address-looks-like-ethertype:{}", v.key);
                     }
@@ -546,16 +570,16 @@ fn affinity_inner(kind: &PoolKind, seg: &Seg, variants: &[(String, Seg, Framing)
     {
         {
             {
-                let patch = |mut f: Vec<u8>, p: &Option<(usize, u8, u8)>| -> Vec<u8> {
+                let patch = |mut f: Vec<u8>, p: &Option<(usize, u8, u8)>, fr: Framing| -> Vec<u8> {
                     if let Some((off, mask, val)) = p {
-                        let i = crate::tap::ip_offset(&f) + off;
+                        let i = pkt::ip_offset_of(fr) + off;
                         if i < f.len() {
                             f[i] = (f[i] & !mask) | (val & mask);
                         }
                     }
                     f
                 };
-                let base = patch(pkt::frame(seg, *base_framing), all_patch);
+                let base = patch(pkt::frame(seg, *base_framing), all_patch, *base_framing);
                 if all_patch.is_some() {
                     st.fault("ipv4_header_length_below_5");
                 }
@@ -563,7 +587,7 @@ fn affinity_inner(kind: &PoolKind, seg: &Seg, variants: &[(String, Seg, Framing)
                 // swapped direction
                 let mut sw = seg.clone();
                 std::mem::swap(&mut sw.src, &mut sw.dst);
-                let swf = patch(pkt::frame(&sw, *base_framing), all_patch);
+                let swf = patch(pkt::frame(&sw, *base_framing), all_patch, *base_framing);
                 for w in 1..=64usize {
                     let b = pool::worker_of(*kind, &base, w);
                     st.evals += 1;
@@ -579,7 +603,7 @@ fn affinity_inner(kind: &PoolKind, seg: &Seg, variants: &[(String, Seg, Framing)
                             continue;
                         }
                         // a different framing moves the IP header; the patch follows it
-                        let f = patch(pkt::frame(v, *fr), all_patch);
+                        let f = patch(pkt::frame(v, *fr), all_patch, *fr);
                         let x = pool::worker_of(*kind, &f, w);
                         st.evals += 1;
                         if x != b {
@@ -587,7 +611,7 @@ fn affinity_inner(kind: &PoolKind, seg: &Seg, variants: &[(String, Seg, Framing)
                         }
                     }
                     for (name, off, mask, val) in byte_variants {
-                        let f = patch(base.clone(), &Some((*off, *mask, *val)));
+                        let f = patch(base.clone(), &Some((*off, *mask, *val)), *base_framing);
                         let x = pool::worker_of(*kind, &f, w);
                         st.evals += 1;
                         if x != b {
@@ -605,7 +629,7 @@ fn affinity_inner(kind: &PoolKind, seg: &Seg, variants: &[(String, Seg, Framing)
                         let mut o = seg.clone();
                         o.src.port = o.src.port.wrapping_add(1);
                         o.dst.port = o.dst.port.wrapping_add(7);
-                        let x = pool::worker_of(*kind, &patch(pkt::frame(&o, *base_framing), all_patch), w);
+                        let x = pool::worker_of(*kind, &patch(pkt::frame(&o, *base_framing), all_patch, *base_framing), w);
                         if x != b {
                             return Err(Violation::new("affinity", "tcp-pool:same-source-address", format!("same source address, other ports: workers {:?} and {:?} (of {})", b, x, w)));
                         }
